@@ -1,0 +1,31 @@
+//go:build verif
+
+// Copyright (C) 2026  mieru authors
+//
+// This program is free software: you can redistribute it and/or modify
+// it under the terms of the GNU General Public License as published by
+// the Free Software Foundation, either version 3 of the License, or
+// (at your option) any later version.
+//
+// This program is distributed in the hope that it will be useful,
+// but WITHOUT ANY WARRANTY; without even the implied warranty of
+// MERCHANTABILITY or FITNESS FOR A PARTICULAR PURPOSE.  See the
+// GNU General Public License for more details.
+//
+// You should have received a copy of the GNU General Public License
+// along with this program.  If not, see <https://www.gnu.org/licenses/>.
+
+package protocol
+
+import "sync/atomic"
+
+// VerifPointFunc, when set, is called at every verifPoint with the name of
+// the point and whether the session belongs to a client. The harness uses it
+// to hold a goroutine at that point and so force an interleaving.
+var VerifPointFunc atomic.Pointer[func(name string, isClient bool)]
+
+func verifPoint(name string, s *Session) {
+	if f := VerifPointFunc.Load(); f != nil {
+		(*f)(name, s.isClient)
+	}
+}
